@@ -244,6 +244,7 @@ func main() {
 	id := 0
 	fatSize := 0
 	inproc := 0  // cases generated in-process so far
+	verDirs := 0 // cases also generated into version-like directories
 	fatPkg := "" // the first package generated in this run; later cases are also regenerated over a copy of it
 	for _, sc := range cases {
 		id++
@@ -317,6 +318,35 @@ func main() {
 							rec.Oracle["C12"] = "fail: the package generated into a nested relative directory differs: " + strings.Join(df, ", ")
 						}
 						_ = os.RemoveAll(filepath.Join(dir, "rel-out"))
+					}
+					// the package is named after the last element of the output directory, whatever that
+					// element looks like and whatever its parent is called: two directories v2 under
+					// different parents hold the same package
+					if verDirs < 4 {
+						verDirs++
+						rec.Tags = append(rec.Tags, "version-like-directory")
+						var first map[string]string
+						for _, parent := range []string{"alpha", "fix44"} {
+							vd := filepath.Join(dir, "ver", parent, "v2")
+							if cl6, m6 := runFixgen(vd, sx, tx, dir); cl6 != "ok" {
+								rec.Oracle["C12"] = "fail: generation into " + parent + "/v2 failed: " + firstLine(m6)
+								break
+							}
+							_, pkg6, err6 := Summarise(vd)
+							c6, _ := dirDigest(vd)
+							switch {
+							case err6 != nil:
+								rec.Oracle["C12"] = "fail: " + parent + "/v2: " + err6.Error()
+							case pkg6 != "v2":
+								rec.Oracle["C12"] = "fail: the package generated into " + parent + "/v2 is named " + pkg6 + ", the directory is named v2"
+							case first != nil:
+								if df := diffDigests(first, c6, false); len(df) > 0 {
+									rec.Oracle["C12"] = "fail: the packages generated into alpha/v2 and fix44/v2 differ: " + strings.Join(df, ", ")
+								}
+							}
+							first = c6
+						}
+						_ = os.RemoveAll(filepath.Join(dir, "ver"))
 					}
 					_ = os.RemoveAll(filepath.Join(dir, "again"))
 					// the library used the way a build tool uses it: the schema parsed once, generated into
